@@ -672,7 +672,7 @@ Proof.
     + intros j Hj. rewrite Es. apply updN_other. congruence.
     + cbn [set_sl_memos sl_memos]. apply updN_same.
     + intros fam Hf. cbn [set_sl_memos sl_memos]. apply updN_other. congruence.
-  - intros h Hh. destruct (Hsrc h Hh) as (ids0 & Ho & Hin). exists ids0. split; [exact (Htr _ _ Ho) | exact Hin].
+  - intros _ h Hh. destruct (Hsrc h Hh) as (ids0 & Ho & Hin). exists ids0. split; [exact (Htr _ _ Ho) | exact Hin].
   - destruct Hinj as [-> | Hno]; [left; reflexivity | right; intros ids; exact (Hno s' ids)].
 Qed.
 
@@ -728,14 +728,14 @@ Proof.
     apply in_map_iff. exists e. auto.
 Qed.
 
-Lemma finish_oinv n q v fr s F s' m :
+Lemma finish_oinv n q old v fr s F s' m :
   OInv s F -> In (q, fr) F ->
-  finish_exec skind sfams n q (peek_memo s (loc_of q)) v fr s = (s', SOk m) ->
+  finish_exec skind sfams n q old v fr s = (s', SOk m) ->
   OInv s' (del_frame F q) /\ mids m = map te_id (filter te_active (fr_ids fr)).
 Proof.
   intros I Hq H. unfold finish_exec in H.
   destruct (drain (fr_ids fr)) as [active stale] eqn:Ed.
-  destruct (backdate (peek_memo s (loc_of q)) (fr_dur fr) (fr_changed fr) v) as [ch | p |]; [|mstep H|mstep H].
+  destruct (backdate old (fr_dur fr) (fr_changed fr) v) as [ch | p |]; [|mstep H|mstep H].
   msplit H as u0 t0 H0. msplit H as x t1 H1. mstep H1. msplit H as u2 t2 H2. mstep H.
   set (mm := {| m_val := Some v; m_verified := cur t0; m_changed := ch; m_dur := fr_dur fr;
                 m_origin := if fr_untracked fr then OUntracked else ODerived;
@@ -785,7 +785,7 @@ Proof.
         intros Ha. apply Hna. apply active_loc_flocs. unfold F1. rewrite flocs_set_frame. apply active_loc_flocs. exact Ha. }
       pose proof (oi_uniq _ _ _ I _ _ _ _ Ho2 Hown E) as Eo. discriminate. }
   assert (IB : OInv t0 F1).
-  { destruct (peek_memo s (loc_of q)) as [o|] eqn:Eo.
+  { destruct old as [o|].
     - destruct u0. destruct (diff_outputs_casc n o q stale (fr_edges fr) s t0 H0) as (e & C & P & R).
       apply (oinv_casc skind sfams sfams_skind s F1 t0 e (diff_roots o stale) I1 C P).
       + intros r Hr. apply Hstale. unfold diff_roots in Hr. destruct (m_origin o); auto. destruct Hr.
@@ -908,8 +908,8 @@ Proof.
     - auto.
     - exact (oi_frames _ _ _ IBM).
     - auto.
-    - cbn. constructor.
-    - intros x [].
+    - intros _. cbn. constructor.
+    - intros _ x [].
     - left. reflexivity. }
   assert (IM : OInv (set_slots t2 (updN (d_slots t2) i (Some slM))) F).
   { apply (oinv_rewrite skind t2 F _ i slL slM IL HsL); cbn [slM set_slots set_sl_memos d_revs d_memo d_nslots d_free d_slots d_ideal sl_updated sl_gen sl_memos].
@@ -1029,23 +1029,27 @@ Proof.
       * right. right. exact Hh2.
 Qed.
 
-Lemma oinv_begin s F q :
+Lemma seed_frame_ids old :
+  NoDup (map fst (match old with Some o => mids o | None => [] end)) ->
+  NoDup (map fst (frame_ids (seed_frame old))) /\
+  forall h, In h (frame_ids (seed_frame old)) -> exists o, old = Some o /\ In h (mids o).
+Proof.
+  intros Hom. unfold seed_frame. destruct old as [o|].
+  - unfold frame_ids. cbn [fr_ids set_fr_ids].
+    destruct (seed_ids_spec (m_structs o) []) as [Hn Hi]; [constructor | exact Hom | intros x y [] |].
+    split; [exact Hn|]. intros h Hh. exists o. split; [reflexivity|]. destruct (Hi h Hh) as [[] | Hh2]. exact Hh2.
+  - split; [constructor | intros h []].
+Qed.
+
+(* a frame is added for q whose ids are held by q's stored memo *)
+Lemma oinv_begin_gen s F q fr :
   OInv s F -> ~ active_loc F (loc_of q) ->
   (skind (fst q) = true -> exists sl, d_slots s (fst (snd q)) = Some sl /\ sl_updated sl = Some (cur s)) ->
-  OInv s ((q, seed_frame (peek_memo s (loc_of q))) :: F).
+  NoDup (map fst (frame_ids fr)) ->
+  (forall h, In h (frame_ids fr) -> exists m, peek_memo s (loc_of q) = Some m /\ In h (mids m)) ->
+  OInv s ((q, fr) :: F).
 Proof.
-  intros I Hna Hlk.
-  set (fr := seed_frame (peek_memo s (loc_of q))).
-  assert (Hfr : NoDup (map fst (frame_ids fr)) /\
-                forall h, In h (frame_ids fr) -> exists m, peek_memo s (loc_of q) = Some m /\ In h (mids m)).
-  { unfold fr, seed_frame. destruct (peek_memo s (loc_of q)) as [o|] eqn:Eo.
-    - unfold frame_ids. cbn [fr_ids set_fr_ids].
-      assert (Hom : NoDup (map fst (mids o))).
-      { apply (oi_nodup _ _ _ I (OwM (loc_of q))). split; [exact Hna | exists o; auto]. }
-      destruct (seed_ids_spec (m_structs o) []) as [Hn Hi]; [constructor | exact Hom | intros x y [] |].
-      split; [exact Hn|]. intros h Hh. exists o. split; [reflexivity|]. destruct (Hi h Hh) as [[] | Hh2]. exact Hh2.
-    - split; [constructor | intros h []]. }
-  destruct Hfr as [Hnd Hsub].
+  intros I Hna Hlk Hnd Hsub.
   set (phi := fun o : owner => match o with OwF q' => if qk_eqb q' q then OwM (loc_of q) else o | _ => o end).
   destruct (own_transfer0 skind s F s ((q, fr) :: F) phi (oinv_own _ _ _ I)) as (L & U & ND).
   { intros [q' | l] ids; cbn [Machine.owner_ids phi].
@@ -1088,6 +1092,21 @@ Proof.
     intros Hin. apply Hna. apply active_loc_flocs. exact Hin.
   - exact (oi_ideal _ _ _ I).
 Qed.
+
+Lemma oinv_begin s F q :
+  OInv s F -> ~ active_loc F (loc_of q) ->
+  (skind (fst q) = true -> exists sl, d_slots s (fst (snd q)) = Some sl /\ sl_updated sl = Some (cur s)) ->
+  OInv s ((q, seed_frame (peek_memo s (loc_of q))) :: F).
+Proof.
+  intros I Hna Hlk.
+  assert (Hom : NoDup (map fst (match peek_memo s (loc_of q) with Some o => mids o | None => [] end))).
+  { destruct (peek_memo s (loc_of q)) as [o|] eqn:Eo; [|constructor].
+    apply (oi_nodup _ _ _ I (OwM (loc_of q))). split; [exact Hna | exists o; auto]. }
+  destruct (seed_frame_ids _ Hom) as [Hnd Hsub].
+  apply oinv_begin_gen; [exact I | exact Hna | exact Hlk | exact Hnd |].
+  intros h Hh. destruct (Hsub h Hh) as (o & Eo & Hin). exists o. auto.
+Qed.
+
 
 (* a change of the revision counters only *)
 Lemma oinv_newrev s s' :
@@ -1178,7 +1197,7 @@ Proof.
     destruct (find_frame F q) as [fr|] eqn:Ef; [|discriminate].
     pose proof (find_frame_in _ _ _ Ef) as Hq.
     destruct (finish_exec skind sfams n q (peek_memo s (loc_of q)) v fr s) as [s1 [m | p |]] eqn:En; try discriminate.
-    injection H as <- <-. exact (proj1 (finish_oinv _ _ _ _ _ _ _ _ I Hq En)).
+    injection H as <- <-. exact (proj1 (finish_oinv _ _ _ _ _ _ _ _ _ I Hq En)).
   - (* MSpecify *)
     destruct (find_frame F q) as [fr|] eqn:Ef; [|discriminate].
     pose proof (find_frame_in _ _ _ Ef) as Hq.
@@ -1220,8 +1239,8 @@ Proof.
     + auto.
     + exact HF.
     + auto.
-    + rewrite Eids. exact (oi_nodup _ _ _ I _ _ Hold).
-    + intros h Hh. exists (mids old). split; [exact Hold | rewrite <- Eids; exact Hh].
+    + intros _. rewrite Eids. exact (oi_nodup _ _ _ I _ _ Hold).
+    + intros _ h Hh. exists (mids old). split; [exact Hold | rewrite <- Eids; exact Hh].
     + left. reflexivity.
   - (* MRev *)
     destruct F as [|? ?]; [|discriminate]. injection H as <- <-.
